@@ -87,6 +87,17 @@ def execute_case(machine, case, journal=None):
     """Run one case in *this* process.  Returns a JSON-able result dict."""
     env = Env()
     gc.disable()
+    # every PRNG the system under test may consult is seeded from the run's seed (a replay carries it)
+    s64 = int(case.get("seed", 0)) & 0xFFFFFFFFFFFFFFFF
+    import random as _random
+    _random.seed(s64)
+    try:
+        import numpy as _np
+        _np.random.seed(s64 & 0xFFFFFFFF)
+        from raysect.core.math.random import seed as _rseed
+        _rseed(s64)
+    except ImportError:
+        pass
     ops = case["ops"]
     try:
         if journal:
